@@ -97,9 +97,9 @@ def fixSound (mode : Mode) : Sound fixLeaves mode where
     show idx ≤ (if idx < (if flush then buf.length else buf.length - 8) then _ else _ : Nat × List UInt8 × Unit).1 ∧ _
     by_cases h : idx < (if flush then buf.length else buf.length - 8)
     · simp only [fixLeaves, h, if_true]
-      refine ⟨by omega, by split <;> omega, fun hf => by simp [hf], _, rfl, rfl⟩
+      refine ⟨by omega, by split <;> omega, (fun hf => Or.inl (by simp [hf])), _, rfl, rfl⟩
     · simp only [fixLeaves, h, if_false]
-      refine ⟨Nat.le_refl _, hidx, fun hf => ?_, [], by simp, by simp⟩
+      refine ⟨Nat.le_refl _, hidx, fun hf => Or.inl ?_, [], by simp, by simp⟩
       rw [hf] at h; simp at h; omega
   enc := by
     intro mf toks final carry h pos
